@@ -1497,15 +1497,831 @@ def _make_clause(pred, kind):
             what = "satisfies the definition by construction" if exp else "violates the definition by a margin >= 1e-2"
             tr = (" after the property-preserving transformation '%s'" % p["t"]) if p.get("t") else ""
             raise Violation("%s(%s) returned %s on an input that %s%s [variant %s, n=%s, %s]" % (pred, _describe(args), got, what, tr, p.get("v"), p.get("n"), "complex" if p.get("cx") else "real"))
-        if pred == "is_unextendible_product_basis":
-            _upb_witness_check(args, res)
 
     clause.function = pred
     clause.__doc__ = "%s returns %s" % (pred, {"true": "True on inputs satisfying its definition", "false": "False on inputs violating its definition by a margin", "invariant": "the same verdict after a property-preserving transformation"}[kind])
     return clause
 
 
-CLAUSES = {}
+def upb_witness(p):
+    """the second return value is None for a UPB and otherwise a product vector orthogonal to every input vector (as documented)"""
+    args, exp = _build("is_unextendible_product_basis", p, p.get("t"))
+    got, res = _verdict("is_unextendible_product_basis", args)
+    if got != exp:
+        raise Undecided("verdict clause fails on this input; the witness is not judged")
+    _upb_witness_check(args, res)
+
+
+upb_witness.function = "is_unextendible_product_basis"
+
+CLAUSES = {"is_unextendible_product_basis.witness": upb_witness}
 for _pred in _ALL:
     for _kind in ("true", "false", "invariant"):
         CLAUSES["%s.%s" % (_pred, _kind)] = _make_clause(_pred, _kind)
+
+
+# ---------------------------------------------------------------------------------------------
+# helper identities
+# ---------------------------------------------------------------------------------------------
+from props.index_clauses import CLAUSES as _IDX  # noqa: E402
+
+CLAUSES["vec.index"] = _IDX["vec.index"]
+CLAUSES["unvec.index"] = _IDX["unvec.index"]
+
+
+def _close(got, exp, what, tol=TOL):
+    got = np.asarray(got)
+    exp = np.asarray(exp)
+    if got.shape != exp.shape:
+        raise Violation("%s: shape %s, required %s" % (what, got.shape, exp.shape))
+    scale = max(1.0, float(np.max(np.abs(exp))) if exp.size else 1.0)
+    dev = float(np.max(np.abs(got - exp))) if exp.size else 0.0
+    if not dev <= tol * scale:
+        raise Violation("%s: max abs deviation %.3g (scale %.3g)" % (what, dev, scale))
+
+
+def _kron_ref(A, B):
+    """Kronecker product from its index definition K[(i,k),(j,l)] = A[i,j] B[k,l] (vectors: K[(i,k)] = a[i] b[k])"""
+    A = np.asarray(A)
+    B = np.asarray(B)
+    if A.ndim == 1 and B.ndim == 1:
+        return np.einsum("i,k->ik", A, B).reshape(-1)
+    A2 = A.reshape(A.shape[0], -1) if A.ndim == 2 else A.reshape(1, -1)
+    B2 = B.reshape(B.shape[0], -1) if B.ndim == 2 else B.reshape(1, -1)
+    return np.einsum("ij,kl->ikjl", A2, B2).reshape(A2.shape[0] * B2.shape[0], A2.shape[1] * B2.shape[1])
+
+
+def vec_kron_identity(p):
+    """vec(A X B) == (B^T (x) A) vec(X); vec is linear; unvec(vec(X)) == X"""
+    from toqito.matrix_ops import unvec, vec
+
+    a, b, c, d = p["shape"]
+    cx = p["cx"]
+    rng = _rng(p, a * 1000 + b * 100 + c * 10 + d)
+    A, X, B = _gin(rng, (a, b), cx), _gin(rng, (b, c), cx), _gin(rng, (c, d), cx)
+    lhs = vec(A @ X @ B)
+    rhs = _kron_ref(B.T, A) @ vec(X)
+    _close(lhs, rhs, "vec(AXB) vs (B^T (x) A) vec(X), shapes %s" % (p["shape"],), 1e-9 * max(1, b * c))
+    Y = _gin(rng, (b, c), cx)
+    s, t = (0.7 - 0.2j, -1.3 + 0.5j) if cx else (0.7, -1.3)
+    _close(vec(s * X + t * Y), s * vec(X) + t * vec(Y), "vec linear", 1e-12)
+    _close(unvec(vec(X), [b, c]), X, "unvec(vec(X))", 0)
+    if b == c:
+        _close(unvec(vec(X)), X, "unvec(vec(X)) with default square shape", 0)
+    # inner product: <vec(X), vec(Y)> == tr(X^dagger Y)
+    _close(_dag(vec(X)) @ vec(Y), np.array([[np.trace(_dag(X) @ Y)]]), "<vec X, vec Y> == tr(X^dagger Y)", 1e-9)
+
+
+vec_kron_identity.function = "vec"
+
+
+def _factors(p, rng):
+    out = []
+    for shp in p["shapes"]:
+        out.append(_gin(rng, tuple(shp), p["cx"]))
+    return out
+
+
+def tensor_assoc(p):
+    """tensor(A,B,C) == tensor(tensor(A,B),C) == tensor(A,tensor(B,C)) == tensor([A,B,C]) == index-defined Kronecker product"""
+    from toqito.matrix_ops import tensor
+
+    rng = _rng(p, 5)
+    F = _factors(p, rng)
+    ref = F[0]
+    for x in F[1:]:
+        ref = _kron_ref(ref, x)
+    if len(F) == 1:
+        _close(tensor([F[0]]), F[0], "tensor([A])", 0)
+        return
+    _close(tensor(*F), ref, "tensor(A, B, ...) variadic", 1e-9)
+    _close(tensor(list(F)), ref, "tensor([A, B, ...]) list form", 1e-9)
+    if len(F) == 3:
+        A, B, C = F
+        _close(tensor(tensor(A, B), C), ref, "tensor(tensor(A,B),C)", 1e-9)
+        _close(tensor(A, tensor(B, C)), ref, "tensor(A,tensor(B,C))", 1e-9)
+    if len(F) >= 2 and all(np.asarray(x).shape == np.asarray(F[0]).shape for x in F):
+        arr = np.array(F)
+        _close(tensor(arr), ref, "tensor(np.array([A, B, ...])) array-of-factors form", 1e-9)
+
+
+tensor_assoc.function = "tensor"
+
+
+def tensor_power(p):
+    """tensor(A, n) == A (x) A (x) ... (x) A (n factors), n = 0 gives the 1x1 identity; == tensor([A]*n) == tensor(A, A, ..., A)"""
+    from toqito.matrix_ops import tensor
+
+    rng = _rng(p, 6)
+    A = _gin(rng, tuple(p["shape"]), p["cx"])
+    if p.get("int"):
+        A = rng.integers(-3, 4, tuple(p["shape"]))
+    n = p["power"]
+    got = tensor(A, n)
+    if n == 0:
+        _close(got, np.eye(1), "tensor(A, 0)", 0)
+        return
+    ref = A
+    for _ in range(n - 1):
+        ref = _kron_ref(ref, A)
+    _close(got, ref, "tensor(A, %d) vs repeated product" % n, 1e-9)
+    if n >= 2:
+        _close(tensor([A] * n), ref, "tensor([A]*%d)" % n, 1e-9)
+        _close(tensor(*([A] * n)), ref, "tensor(A, ..., A)", 1e-9)
+        _close(tensor(tensor(A, n - 1), A), ref, "tensor(tensor(A,n-1),A)", 1e-9)
+        _close(tensor(A, tensor(A, n - 1)), ref, "tensor(A,tensor(A,n-1))", 1e-9)
+
+
+tensor_power.function = "tensor"
+
+
+def _gram_vectors(p, rng):
+    n, r, cx, kind = p["n"], p["r"], p["cx"], p["kind"]
+    if kind == "generic":
+        V = _gin(rng, (r, n), cx)  # n vectors in dimension r: Gram matrix n x n of rank min(r, n)
+    elif kind == "isometric":  # equal non-zero eigenvalues: G is a multiple of a rank-r projector
+        V = 1.5 * _haar(rng, n, cx)[:r, :]
+    elif kind == "trine":
+        V = np.array([[1, 0], [-0.5, np.sqrt(3) / 2], [-0.5, -np.sqrt(3) / 2]]).T
+    else:
+        raise KeyError(kind)
+    G = _dag(V) @ V
+    return V, _herm(G)
+
+
+def _gram_ref(vs):
+    k = len(vs)
+    G = np.zeros((k, k), dtype=complex)
+    for i in range(k):
+        for j in range(k):
+            G[i, j] = np.vdot(np.asarray(vs[i]).reshape(-1), np.asarray(vs[j]).reshape(-1))
+    return G
+
+
+def gram_roundtrip(p):
+    """vectors_to_gram_matrix(vectors_from_gram_matrix(G)) == G for a Gram matrix G (G[i,j] = <v_i, v_j>)"""
+    import contextlib
+    import io
+
+    from toqito.matrix_ops import vectors_from_gram_matrix, vectors_to_gram_matrix
+
+    rng = _rng(p, 8)
+    V, G = _gram_vectors(p, rng)
+    with contextlib.redirect_stdout(io.StringIO()):
+        vs = vectors_from_gram_matrix(G)
+    if len(vs) != G.shape[0]:
+        raise Violation("vectors_from_gram_matrix returned %d vectors for a %dx%d Gram matrix" % (len(vs), G.shape[0], G.shape[0]))
+    G_def = _gram_ref(vs)  # Gram matrix of the returned vectors, from the definition (np.vdot)
+    dev = float(np.max(np.abs(G_def - G)))
+    devT = float(np.max(np.abs(G_def - G.T)))
+    if dev > TOL * max(1, np.max(np.abs(G))):
+        raise Violation("Gram matrix of vectors_from_gram_matrix(G) differs from G by %.3g (from G^T by %.3g); n=%d rank=%d %s %s" % (dev, devT, p["n"], min(p["r"], p["n"]), "complex" if p["cx"] else "real", p["kind"]))
+    G2 = vectors_to_gram_matrix(vs)
+    _close(G2, G, "vectors_to_gram_matrix(vectors_from_gram_matrix(G))")
+
+
+gram_roundtrip.function = "vectors_from_gram_matrix"
+
+
+def gram_definition(p):
+    """vectors_to_gram_matrix(vs)[i,j] == <v_i, v_j> (conjugate-linear in the first argument), Hermitian PSD, rank = dim span"""
+    from toqito.matrix_ops import vectors_to_gram_matrix
+
+    rng = _rng(p, 9)
+    V, _ = _gram_vectors(p, rng)
+    form = p.get("form", "1d")
+    vs = [V[:, i].copy() if form == "1d" else V[:, i].reshape(-1, 1).copy() for i in range(V.shape[1])]
+    G = vectors_to_gram_matrix(vs)
+    _close(G, _gram_ref(vs), "vectors_to_gram_matrix vs <v_i, v_j>", 1e-9)
+    _close(G, _dag(G), "Gram matrix Hermitian", 1e-9)
+    w = np.linalg.eigvalsh(_herm(G))
+    if w[0] < -1e-9 * max(1, w[-1]):
+        raise Violation("Gram matrix has negative eigenvalue %.3g" % w[0])
+    U = _haar(rng, V.shape[0], p["cx"])
+    _close(vectors_to_gram_matrix([U @ x for x in vs]), G, "Gram matrix invariant under a common unitary", 1e-9)
+
+
+gram_definition.function = "vectors_to_gram_matrix"
+
+
+def _commutant_input(p, rng):
+    n, cx, kind = p["n"], p["cx"], p["kind"]
+    if kind == "normal-multiplicities":
+        mult = p["mult"]
+        d = np.concatenate([[float(i + 1) * (1.0 if i % 2 == 0 else -1.0)] * m for i, m in enumerate(mult)])
+        if len(mult) == 1:  # scalar matrix: keep it exactly scalar (rounding noise would be the only structure left)
+            return [np.diag(d).astype(complex if cx else float)], n * n
+        U = _haar(rng, n, cx)
+        return [U @ np.diag(d) @ _dag(U)], sum(m * m for m in mult)
+    if kind == "diagonalisable-multiplicities":
+        mult = p["mult"]
+        d = np.concatenate([[float(i + 1)] * m for i, m in enumerate(mult)])
+        if len(mult) == 1:
+            return [np.diag(d).astype(complex if cx else float)], n * n
+        S = _mixer(rng, n, cx)
+        return [S @ np.diag(d) @ np.linalg.inv(S)], sum(m * m for m in mult)
+    if kind == "jordan-block":
+        J = 0.7 * np.eye(n) + np.eye(n, k=1)
+        return [J], n
+    if kind == "identity":
+        return [np.eye(n)], n * n
+    if kind == "algebra-tensor-identity":
+        k, m = p["k"], p["m"]  # generators B_j (x) I_m generate M_k (x) I_m, commutant I_k (x) M_m
+        if k == 1:
+            return [(1.5 - (0.5j if cx else 0.0)) * np.eye(n)], n * n
+        U = _haar(rng, n, cx)
+        gens = [U @ np.kron(_gin(rng, (k, k), cx), np.eye(m)) @ _dag(U) for _ in range(2)]
+        return gens, m * m
+    if kind == "block-algebra":
+        blocks = p["blocks"]  # generators = generic block-diagonal matrices: commutant = one scalar per block
+        U = _haar(rng, n, cx)
+        gens = []
+        for _ in range(2):
+            M = np.zeros((n, n), dtype=complex if cx else float)
+            o = 0
+            for b in blocks:
+                M[o : o + b, o : o + b] = _gin(rng, (b, b), cx)
+                o += b
+            gens.append(U @ M @ _dag(U))
+        return gens, len(blocks)
+    if kind == "pauli-xz":
+        return [np.array([[0.0, 1], [1, 0]]), np.array([[1.0, 0], [0, -1]])], 1
+    raise KeyError(kind)
+
+
+def _commutant_call(p):
+    from toqito.matrix_props import commutant
+
+    rng = _rng(p, 10)
+    gens, dim = _commutant_input(p, rng)
+    arg = gens[0] if (len(gens) == 1 and p.get("form", "list") == "array") else list(gens)
+    basis = commutant(arg)
+    return gens, dim, basis
+
+
+def commutant_commutes(p):
+    """every returned matrix commutes with every generator; the returned matrices are orthonormal in the Hilbert-Schmidt inner product"""
+    gens, dim, basis = _commutant_call(p)
+    n = gens[0].shape[0]
+    for k, X in enumerate(basis):
+        X = np.asarray(X)
+        if X.shape != (n, n):
+            raise Violation("commutant element %d has shape %s" % (k, X.shape))
+        for j, A in enumerate(gens):
+            dev = float(np.max(np.abs(A @ X - X @ A)))
+            if dev > TOL * max(1.0, float(np.max(np.abs(A)))):
+                raise Violation("commutant element %d does not commute with generator %d: max |AX - XA| = %.3g (%s, n=%d)" % (k, j, dev, p["kind"], n))
+    if basis:
+        B = np.array([np.asarray(X).reshape(-1) for X in basis])
+        _close(B.conj() @ B.T, np.eye(len(basis)), "Hilbert-Schmidt Gram matrix of the commutant basis")
+
+
+commutant_commutes.function = "commutant"
+
+
+def commutant_dimension(p):
+    """the number of returned matrices equals the dimension of the commutant predicted from the generators' structure"""
+    gens, dim, basis = _commutant_call(p)
+    if len(basis) != dim:
+        raise Violation("commutant returned %d matrices, the commutant of these generators has dimension %d (%s, n=%d, %s)" % (len(basis), dim, p["kind"], gens[0].shape[0], {k: p[k] for k in ("mult", "k", "m", "blocks") if k in p}))
+
+
+commutant_dimension.function = "commutant"
+
+
+def _partial_sums_margin(a, b):
+    a = np.sort(np.asarray(a, dtype=float))[::-1]
+    b = np.sort(np.asarray(b, dtype=float))[::-1]
+    m = max(len(a), len(b))
+    a = np.pad(a, (0, m - len(a)))
+    b = np.pad(b, (0, m - len(b)))
+    return float(np.min(np.cumsum(a) - np.cumsum(b)))
+
+
+def _majorizes_input(p, rng):
+    n, kind = p["n"], p["kind"]
+    if kind == "doubly-stochastic-image":  # b = D a  =>  a majorizes b
+        a = rng.random(n) + 0.05
+        b = _doubly_stochastic(rng, n) @ a
+        return a, b, None
+    if kind == "reflexive-permuted":
+        a = rng.random(n)
+        return a, a[rng.permutation(n)], True
+    if kind == "random-pair":
+        for _ in range(200):
+            a, b = rng.random(n), rng.random(p.get("m", n))
+            a, b = a / a.sum(), b / b.sum()
+            if abs(_partial_sums_margin(a, b)) > 1e-2 or (n == 1 and p.get("m", n) == 1):
+                break
+        return a, b, None
+    if kind == "reversed":  # b = D a, ask whether b majorizes a (false when the margin is there)
+        a = rng.random(n) + 0.05
+        b = _doubly_stochastic(rng, n) @ a
+        return b, a, None
+    if kind == "int-lists":
+        a = sorted(int(x) for x in rng.integers(0, 6, n))
+        b = [int(x) for x in rng.integers(0, 6, n)]
+        return list(a), list(b), None
+    if kind == "matrices":  # singular values
+        U1, V1, U2, V2 = (_haar(rng, n, p["cx"]) for _ in range(4))
+        for _ in range(200):
+            sa, sb = rng.random(n) + 0.05, rng.random(n) + 0.05
+            if abs(_partial_sums_margin(sa, sb)) > 1e-2:
+                break
+        return U1 @ np.diag(sa) @ V1, U2 @ np.diag(sb) @ V2, None
+    raise KeyError(kind)
+
+
+def _majorizes_expected(a, b):
+    sa = np.asarray(a, dtype=float) if np.asarray(a).ndim == 1 else np.linalg.svd(np.asarray(a), compute_uv=False)
+    sb = np.asarray(b, dtype=float) if np.asarray(b).ndim == 1 else np.linalg.svd(np.asarray(b), compute_uv=False)
+    return _partial_sums_margin(sa, sb)
+
+
+def _majorizes_clause(direction):
+    def clause(p):
+        from toqito.matrix_props import majorizes
+
+        rng = _rng(p, 11)
+        a, b, forced = _majorizes_input(p, rng)
+        margin = _majorizes_expected(a, b)
+        if forced is not None:
+            exp = forced
+        elif margin >= 1e-3:
+            exp = True
+        elif margin <= -1e-3:
+            exp = False
+        else:
+            raise Undecided("partial sums within 1e-3 of each other: boundary input, not judged")
+        if exp != (direction == "true"):
+            return {"skipped": "belongs to the other clause"}
+        got = bool(majorizes(a, b))
+        if got != exp:
+            raise Violation("majorizes returned %s; min_k (sum_k a_sorted - sum_k b_sorted) = %.4g (%s, n=%d)" % (got, margin, p["kind"], p["n"]))
+
+    clause.function = "majorizes"
+    clause.__doc__ = "majorizes(a, b) is %s when all partial sums of the sorted (singular) values of a dominate / some partial sum of b exceeds" % direction
+    return clause
+
+
+def _spark_input(p, rng):
+    m, n, kind, cx = p["m"], p["ncols"], p["kind"], p["cx"]
+    A = _gin(rng, (m, n), cx)
+    if kind == "generic":
+        pass
+    elif kind == "zero-column":
+        A[:, int(rng.integers(n))] = 0
+    elif kind == "parallel-columns":
+        A[:, n - 1] = (1.7 - (0.4j if cx else 0)) * A[:, 0]
+    elif kind == "dependent-k":
+        k = p["k"]  # columns 0..k-1 span only k-1 dimensions, everything else generic
+        A[:, k - 1] = A[:, : k - 1] @ (_gin(rng, (k - 1,), cx) + 0.5)
+    elif kind == "identity-plus-ones":
+        A = np.hstack([np.eye(m), np.ones((m, 1))])
+    else:
+        raise KeyError(kind)
+    return A
+
+
+def _spark_ref(A):
+    m, n = A.shape
+    scale = max(1.0, float(np.max(np.abs(A))))
+    for k in range(1, min(m, n) + 1):
+        for cols in itertools.combinations(range(n), k):
+            s = np.linalg.svd(A[:, cols], compute_uv=False)
+            smin = s[-1] if len(s) >= k else 0.0
+            if smin < 1e-10 * scale:
+                return k
+            if smin < 1e-5 * scale:
+                raise Undecided("nearly dependent columns (sigma_min = %.3g): boundary input" % smin)
+    return min(m, n) + 1
+
+
+def spark_bruteforce(p):
+    """spark(A) == smallest number of linearly dependent columns (brute force over column subsets with an SVD rank test); documented value min(m,n)+1 when none"""
+    from toqito.matrix_props import spark
+
+    A = _spark_input(p, _rng(p, 12))
+    exp = _spark_ref(A)
+    got = spark(A)
+    if int(got) != exp:
+        raise Violation("spark of a %dx%d matrix (%s) = %s, brute force gives %d" % (A.shape[0], A.shape[1], p["kind"], got, exp))
+    if p["kind"] != "zero-column" and A.shape[0] >= 1:
+        S = _mixer(_rng(p, 13), A.shape[0], p["cx"])
+        got2 = spark(S @ A)
+        if int(got2) != exp:
+            raise Violation("spark changed from %d to %s under an invertible row transformation" % (exp, got2))
+
+
+spark_bruteforce.function = "spark"
+
+
+def kp_norm_svd(p):
+    """kp_norm(M, k, p) == (sum of the p-th powers of the k largest singular values)^(1/p)"""
+    from toqito.matrix_props import kp_norm
+
+    rng = _rng(p, 14)
+    M = _gin(rng, (p["m"], p["ncols"]), p["cx"])
+    if p.get("rankdef"):
+        r = max(1, min(p["m"], p["ncols"]) // 2)
+        M = _gin(rng, (p["m"], r), p["cx"]) @ _gin(rng, (r, p["ncols"]), p["cx"])
+    s = np.sort(np.linalg.svd(M, compute_uv=False))[::-1]
+    for k in range(1, min(M.shape) + 2):
+        for q in p["ps"]:
+            qq = np.inf if q == "inf" else q
+            got = kp_norm(M, k, qq)
+            top = s[:k]
+            exp = float(np.max(top)) if q == "inf" else float(np.sum(top**q) ** (1.0 / q))
+            if abs(got - exp) > TOL * max(1.0, exp):
+                raise Violation("kp_norm(M %s, k=%d, p=%s) = %.10g, singular-value definition gives %.10g" % (M.shape, k, q, got, exp))
+    U, V = _haar(rng, M.shape[0], p["cx"]), _haar(rng, M.shape[1], p["cx"])
+    k = max(1, min(M.shape) - 1)
+    a, b = kp_norm(U @ M @ V, k, 3), kp_norm(M, k, 3)
+    if abs(a - b) > TOL * max(1.0, b):
+        raise Violation("kp_norm not unitarily invariant: %.10g vs %.10g" % (a, b))
+
+
+kp_norm_svd.function = "kp_norm"
+
+
+def trace_norm_svd(p):
+    """trace_norm(M) == sum of singular values (== sum |eigenvalues| for Hermitian M, == 1 for density matrices); unitarily invariant"""
+    from toqito.matrix_props import trace_norm
+
+    rng = _rng(p, 15)
+    kind = p["kind"]
+    m, n, cx = p["m"], p["ncols"], p["cx"]
+    if kind == "generic":
+        M = _gin(rng, (m, n), cx)
+    elif kind == "hermitian":
+        M = _herm(_gin(rng, (m, m), cx))
+    elif kind == "density":
+        M = _density(rng, m, cx)
+    elif kind == "difference-of-states":
+        M = _density(rng, m, cx) - _density(rng, m, cx, 1)
+    else:
+        raise KeyError(kind)
+    got = trace_norm(M)
+    exp = float(np.sum(np.linalg.svd(M, compute_uv=False)))
+    if abs(got - exp) > TOL * max(1.0, exp):
+        raise Violation("trace_norm(%s %s) = %.10g, sum of singular values = %.10g" % (kind, M.shape, got, exp))
+    if kind != "generic":
+        e2 = float(np.sum(np.abs(np.linalg.eigvalsh(_herm(M)))))
+        if abs(got - e2) > TOL * max(1.0, e2):
+            raise Violation("trace_norm(Hermitian) = %.10g, sum |eigenvalues| = %.10g" % (got, e2))
+    if kind == "density" and abs(got - 1) > TOL:
+        raise Violation("trace_norm(density matrix) = %.10g" % got)
+    U, V = _haar(rng, M.shape[0], cx), _haar(rng, M.shape[1], cx)
+    g2 = trace_norm(U @ M @ V)
+    if abs(g2 - got) > TOL * max(1.0, exp):
+        raise Violation("trace_norm not unitarily invariant: %.10g vs %.10g" % (g2, got))
+    if abs(trace_norm(-2.5 * M) - 2.5 * got) > TOL * max(1.0, exp):
+        raise Violation("trace_norm not absolutely homogeneous")
+
+
+trace_norm_svd.function = "trace_norm"
+
+
+def errors_documented(p):
+    """documented exceptions are raised on the documented inadmissible inputs"""
+    import contextlib
+    import io
+
+    kind = p["kind"]
+    import toqito.matrix_ops as mo
+    import toqito.matrix_props as mp
+    import toqito.state_props as sp
+
+    e0 = np.array([1.0, 0.0])
+    table = {
+        "is_square/1d": (lambda: mp.is_square(np.arange(3.0)), ValueError),
+        "is_square/3d": (lambda: mp.is_square(np.zeros((2, 2, 2))), ValueError),
+        "is_pseudo_unitary/negative-p": (lambda: mp.is_pseudo_unitary(np.eye(2), -1, 3), ValueError),
+        "is_pseudo_unitary/negative-q": (lambda: mp.is_pseudo_unitary(np.eye(2), 3, -1), ValueError),
+        "is_pseudo_hermitian/non-hermitian-signature": (lambda: mp.is_pseudo_hermitian(np.eye(2), np.array([[1.0, 1.0], [0.0, -1.0]])), ValueError),
+        "is_pseudo_hermitian/singular-signature": (lambda: mp.is_pseudo_hermitian(np.eye(2), np.array([[1.0, 0.0], [0.0, 0.0]])), ValueError),
+        "is_stochastic/bad-type": (lambda: mp.is_stochastic(np.eye(2), "both"), TypeError),
+        "is_nonnegative/bad-type": (lambda: mp.is_nonnegative(np.eye(2), "triply"), TypeError),
+        "is_totally_positive/empty": (lambda: mp.is_totally_positive(np.zeros((0, 0))), ValueError),
+        "spark/1d": (lambda: mp.spark(np.arange(3.0)), ValueError),
+        "spark/list": (lambda: mp.spark([[1, 0], [0, 1]]), ValueError),
+        "is_mutually_orthogonal/one-vector": (lambda: sp.is_mutually_orthogonal([e0]), ValueError),
+        "is_mutually_orthogonal/empty": (lambda: sp.is_mutually_orthogonal([]), ValueError),
+        "is_unextendible_product_basis/dims-mismatch": (lambda: sp.is_unextendible_product_basis(_upb("tiles")[0], [2, 3]), ValueError),
+        "is_unextendible_product_basis/non-product": (lambda: sp.is_unextendible_product_basis([np.array([1.0, 0, 0, 1]) / np.sqrt(2), np.array([0.0, 1, 0, 0])], [2, 2]), ValueError),
+        "vectors_to_gram_matrix/different-lengths": (lambda: mo.vectors_to_gram_matrix([np.ones(2), np.ones(3)]), ValueError),
+        "vectors_from_gram_matrix/non-square": (lambda: mo.vectors_from_gram_matrix(np.ones((2, 3))), np.linalg.LinAlgError),
+    }
+    call, exc = table[kind]
+    try:
+        with contextlib.redirect_stdout(io.StringIO()):
+            r = call()
+    except exc:
+        return
+    except Exception as e:  # noqa: BLE001
+        raise Violation("%s: documented %s, raised %s: %s" % (kind, exc.__name__, type(e).__name__, str(e)[:200]))
+    raise Violation("%s: documented %s, but the call returned %r" % (kind, exc.__name__, r))
+
+
+errors_documented.function = "documented exceptions"
+
+CLAUSES.update({
+    "vec.kron_identity": vec_kron_identity,
+    "tensor.assoc": tensor_assoc,
+    "tensor.power": tensor_power,
+    "gram.roundtrip": gram_roundtrip,
+    "gram.definition": gram_definition,
+    "commutant.commutes": commutant_commutes,
+    "commutant.dimension": commutant_dimension,
+    "majorizes.true": _majorizes_clause("true"),
+    "majorizes.false": _majorizes_clause("false"),
+    "spark.bruteforce": spark_bruteforce,
+    "kp_norm.svd": kp_norm_svd,
+    "trace_norm.svd": trace_norm_svd,
+    "errors.documented": errors_documented,
+})
+
+
+def _majorizes_direction(p):
+    a, b, forced = _majorizes_input(p, _rng(p, 11))
+    if forced is not None:
+        return "true" if forced else "false"
+    m = _majorizes_expected(a, b)
+    return "true" if m >= 1e-3 else "false" if m <= -1e-3 else None
+
+
+# ---------------------------------------------------------------------------------------------
+# case generation
+# ---------------------------------------------------------------------------------------------
+_EXTRA = {
+    # predicate -> function(n) -> list of extra-parameter dicts (the small discrete part of the quantifier)
+    "is_pseudo_unitary": lambda n: [dict(p=k) for k in range(0, n + 1)],
+    "is_orthonormal": lambda n: [dict(k=k) for k in sorted({2, n}) if 2 <= k <= n],
+    "is_linearly_independent": lambda n: [dict(k=k) for k in sorted({1, max(1, n - 1), n, n + 1})],
+    "is_mutually_orthogonal": lambda n: [dict(k=k, form=f) for k in sorted({2, n}) if 2 <= k <= n for f in ("1d", "column", "list")],
+    "is_totally_positive": lambda n: [dict(family="pascal"), dict(family="vandermonde")],
+    "is_mutually_unbiased_basis": lambda n: [dict(form="1d"), dict(form="column")],
+}
+
+
+def cases(tier, seed):
+    thorough = tier == "thorough"
+    out = []
+    seen = set()
+
+    def add(clause, params, ic, nontrivial=True):
+        key = (clause, repr(sorted(params.items(), key=lambda kv: kv[0])))
+        if key in seen:
+            return
+        seen.add(key)
+        out.append(dict(clause=clause, params=params, input_class=ic, nontrivial=bool(nontrivial)))
+
+    def fld(cx):
+        return "complex" if cx else "real"
+
+    def try_add(pred, kind, params, ic):
+        try:
+            args, exp = _build(pred, params, params.get("t"))
+        except _NA:
+            return False
+        if kind == "true" and not exp or kind == "false" and exp:
+            kind = "true" if exp else "false"
+        add("%s.%s" % (pred, kind), params, ic, params.get("n", 2) >= 2)
+        return True
+
+    seeds = [0] + [1000 + seed + i for i in range(10 if thorough else 1)]
+    sizes = range(1, 7)
+    for pred, (mod, bld, tv, fv, trs, bases) in PREDS.items():
+        tb, fb = bases
+        tb = [tb] if isinstance(tb, str) else tb
+        for n in sizes:
+            for cx in (False, True):
+                extras = _EXTRA.get(pred, lambda n: [dict()])(n)
+                for ex in extras:
+                    for s in seeds:
+                        for v in tv:
+                            try_add(pred, "true", dict(v=v, n=n, cx=cx, seed=s, **ex), "%s/%s/%s" % (pred, v, fld(cx)))
+                        for v in fv:
+                            try_add(pred, "false", dict(v=v, n=n, cx=cx, seed=s, **ex), "%s/%s/%s" % (pred, v, fld(cx)))
+                    for t in trs:
+                        for v in list(tb) + list(fb):
+                            pr = dict(v=v, n=n, cx=cx, seed=seeds[-1], t=t, **ex)
+                            try:
+                                _build(pred, pr, t)
+                            except _NA:
+                                continue
+                            add("%s.invariant" % pred, pr, "%s/%s+%s/%s" % (pred, v, t, fld(cx)), n >= 2)
+    # is_pure / is_ensemble list bases for the order / split transformations
+    for n in sizes:
+        for cx in (False, True):
+            for v in ("list-all-pure", "list-one-mixed"):
+                pr = dict(v=v, n=n, cx=cx, seed=0, t="states-permute")
+                try:
+                    _build("is_pure", pr, "states-permute")
+                    add("is_pure.invariant", pr, "is_pure/%s+states-permute/%s" % (v, fld(cx)), n >= 2)
+                except _NA:
+                    pass
+    # is_diagonal: every off-diagonal position
+    for n in range(2, 7):
+        for cx in (False, True):
+            for i in range(n):
+                for j in range(n):
+                    if i != j:
+                        add("is_diagonal.false", dict(v="offdiag", n=n, cx=cx, i=i, j=j, seed=0), "is_diagonal/offdiag/%s" % fld(cx))
+    # is_permutation: every permutation matrix of size <= 4 (5: thorough), sampled above that
+    for n in range(1, 6 if thorough else 5):
+        import math
+
+        for k in range(math.factorial(n)):
+            add("is_permutation.true", dict(v="indexed", n=n, cx=False, k=k, seed=0), "is_permutation/indexed/real", n >= 2)
+    # is_square: all shapes
+    for r in range(1, 7):
+        for c in range(1, 7):
+            add("is_square.%s" % ("true" if r == c else "false"), dict(r=r, c=c, cx=bool((r + c) % 2), seed=0), "is_square/%s" % ("square" if r == c else "rectangular"), r * c > 1)
+    # is_diagonally_dominant
+    for n in sizes:
+        for cx in (False, True):
+            for strict in (True, False):
+                for s in seeds:
+                    for v in ("margin", "equality-int", "deficient-row", "nonsquare"):
+                        pr = dict(v=v, n=n, cx=cx, strict=strict, seed=s)
+                        try:
+                            _, exp = _build("is_diagonally_dominant", pr)
+                        except _NA:
+                            continue
+                        add("is_diagonally_dominant.%s" % ("true" if exp else "false"), pr, "is_diagonally_dominant/%s/%s/%s" % (v, "strict" if strict else "nonstrict", fld(cx)), n >= 2)
+                for t in PREDS_X["is_diagonally_dominant"][2]:
+                    for v in ("margin", "equality-int", "deficient-row"):
+                        pr = dict(v=v, n=n, cx=cx, strict=strict, seed=seeds[-1], t=t)
+                        try:
+                            _build("is_diagonally_dominant", pr, t)
+                        except _NA:
+                            continue
+                        add("is_diagonally_dominant.invariant", pr, "is_diagonally_dominant/%s+%s/%s/%s" % (v, t, "strict" if strict else "nonstrict", fld(cx)), n >= 2)
+    # is_stochastic / is_nonnegative
+    for n in sizes:
+        for s in seeds:
+            for t in ("left", "right", "doubly"):
+                for v in ("built", "doubly-as", "perm", "sum-off", "neg-entry", "other-side-only", "other-side-only-right", "nonsquare"):
+                    pr = dict(v=v, n=n, cx=False, type=t, seed=s)
+                    try:
+                        _, exp = _build("is_stochastic", pr)
+                    except _NA:
+                        continue
+                    add("is_stochastic.%s" % ("true" if exp else "false"), pr, "is_stochastic/%s/%s" % (v, t), n >= 2)
+            for t in ("nonnegative", "doubly"):
+                for v in ("random", "with-zeros", "int", "neg-entry", "indefinite"):
+                    pr = dict(v=v, n=n, cx=False, type=t, seed=s)
+                    try:
+                        _, exp = _build("is_nonnegative", pr)
+                    except _NA:
+                        continue
+                    add("is_nonnegative.%s" % ("true" if exp else "false"), pr, "is_nonnegative/%s/%s" % (v, t), n >= 2)
+        for t in ("left", "right", "doubly"):
+            for tr in PREDS_X["is_stochastic"][2]:
+                for v in ("built", "sum-off"):
+                    add("is_stochastic.invariant", dict(v=v, n=n, cx=False, type=t, seed=seeds[-1], t=tr), "is_stochastic/%s+%s/%s" % (v, tr, t), n >= 2)
+        for t in ("nonnegative", "doubly"):
+            for tr in PREDS_X["is_nonnegative"][2]:
+                for v in ("random", "neg-entry"):
+                    add("is_nonnegative.invariant", dict(v=v, n=n, cx=False, type=t, seed=seeds[-1], t=tr), "is_nonnegative/%s+%s/%s" % (v, tr, t), n >= 2)
+    # unextendible product bases
+    for name, size in (("tiles", 5), ("shifts", 4), ("pyramid", 5)):
+        add("is_unextendible_product_basis.true", dict(v="upb", upb=name, n=size, cx=False, seed=0), "is_unextendible_product_basis/%s" % name)
+        for k in range(size):
+            add("is_unextendible_product_basis.false", dict(v="one-removed", upb=name, k=k, n=size, cx=False, seed=0), "is_unextendible_product_basis/%s-one-removed" % name)
+            add("is_unextendible_product_basis.witness", dict(v="one-removed", upb=name, k=k, n=size, cx=False, seed=0), "is_unextendible_product_basis/%s-one-removed/real-vectors" % name)
+            add("is_unextendible_product_basis.witness", dict(v="one-removed", upb=name, k=k, n=size, cx=True, seed=seeds[-1], t="upb-local"), "is_unextendible_product_basis/%s-one-removed/complex-vectors" % name)
+        add("is_unextendible_product_basis.witness", dict(v="upb", upb=name, n=size, cx=False, seed=0), "is_unextendible_product_basis/%s" % name)
+        add("is_unextendible_product_basis.witness", dict(v="two-product-vectors", upb=name, n=size, cx=False, seed=0), "is_unextendible_product_basis/%s-two-vectors/real-vectors" % name)
+        add("is_unextendible_product_basis.witness", dict(v="two-product-vectors", upb=name, n=size, cx=True, seed=seeds[-1], t="upb-local"), "is_unextendible_product_basis/%s-two-vectors/complex-vectors" % name)
+        add("is_unextendible_product_basis.false", dict(v="two-product-vectors", upb=name, n=size, cx=False, seed=0), "is_unextendible_product_basis/%s-two-vectors" % name)
+        for tr in PREDS_X["is_unextendible_product_basis"][2]:
+            for s in seeds[1:]:
+                add("is_unextendible_product_basis.invariant", dict(v="upb", upb=name, n=size, cx=True, seed=s, t=tr), "is_unextendible_product_basis/%s+%s" % (name, tr))
+                add("is_unextendible_product_basis.invariant", dict(v="one-removed", k=1, upb=name, n=size, cx=True, seed=s, t=tr), "is_unextendible_product_basis/%s-one-removed+%s" % (name, tr))
+
+    # ------------------------------------------------------------------ helpers
+    for shape in itertools.product(range(1, 6 if thorough else 5), repeat=2):
+        add("vec.index", dict(shape=list(shape), entries="arange"), "vec/index", shape != (1, 1))
+        add("unvec.index", dict(shape=list(shape), entries="arange"), "unvec/index", shape != (1, 1))
+        add("unvec.index", dict(shape=list(shape), entries="complex", form="column"), "unvec/index-column", shape != (1, 1))
+    add("vec.index", dict(shape=[2, 3], entries="sym"), "vec/index")
+    add("unvec.index", dict(shape=[3, 2], entries="sym"), "unvec/index")
+    top = 5 if thorough else 4
+    for shape in itertools.product(range(1, top + 1), repeat=4):
+        for cx in (False, True):
+            add("vec.kron_identity", dict(shape=list(shape), cx=cx, seed=seeds[-1]), "vec/AXB/%s" % fld(cx), shape != (1, 1, 1, 1))
+    mshapes = [[1, 1], [2, 2], [2, 3], [3, 1], [1, 3], [3, 2]]
+    for a, b, c in itertools.product(mshapes, repeat=3):
+        for cx in (False, True):
+            add("tensor.assoc", dict(shapes=[a, b, c], cx=cx, seed=seeds[-1]), "tensor/3-matrices/%s" % fld(cx))
+    for a, b in itertools.product(mshapes, repeat=2):
+        add("tensor.assoc", dict(shapes=[a, b], cx=True, seed=seeds[-1]), "tensor/2-matrices/complex")
+    for dims in itertools.product((1, 2, 3), repeat=3):
+        add("tensor.assoc", dict(shapes=[[d] for d in dims], cx=True, seed=seeds[-1]), "tensor/3-vectors/complex")
+    for k in (4, 5):
+        add("tensor.assoc", dict(shapes=[[2, 2]] * k, cx=True, seed=seeds[-1]), "tensor/%d-matrices/complex" % k)
+        add("tensor.assoc", dict(shapes=[[2]] * k, cx=False, seed=seeds[-1]), "tensor/%d-vectors/real" % k)
+    add("tensor.assoc", dict(shapes=[[2, 3]], cx=True, seed=0), "tensor/1-matrix/complex")
+    for shp in ([1, 1], [2, 2], [2, 3], [3, 2], [2], [3], [2, 1], [1, 2]):
+        sz = shp[0] * (shp[1] if len(shp) > 1 else 1)
+        for n in range(0, 8):
+            if sz**n <= 4096 and (n <= 5 or sz <= 2):
+                for cx in (False, True):
+                    add("tensor.power", dict(shape=shp, power=n, cx=cx, seed=seeds[-1]), "tensor/power/%s/%s" % ("vector" if len(shp) == 1 else "matrix", fld(cx)), n >= 2)
+                add("tensor.power", dict(shape=shp, power=n, cx=False, int=True, seed=seeds[-1]), "tensor/power/int", n >= 2)
+    for n in sizes:
+        for cx in (False, True):
+            for r in range(1, n + 1):
+                for s in seeds:
+                    cls = "full-rank" if r == n else "rank-deficient"
+                    add("gram.roundtrip", dict(n=n, r=r, cx=cx, kind="generic", seed=s), "gram/%s/%s" % (cls, fld(cx)), n >= 2)
+                    if r < n:
+                        add("gram.roundtrip", dict(n=n, r=r, cx=cx, kind="isometric", seed=s), "gram/rank-deficient-degenerate-spectrum/%s" % fld(cx))
+                    else:
+                        add("gram.roundtrip", dict(n=n, r=r, cx=cx, kind="isometric", seed=s), "gram/full-rank-degenerate-spectrum/%s" % fld(cx), n >= 2)
+                add("gram.definition", dict(n=n, r=r, cx=cx, kind="generic", seed=seeds[-1], form="1d"), "gram/definition/%s" % fld(cx), n >= 2)
+                add("gram.definition", dict(n=n, r=r, cx=cx, kind="generic", seed=seeds[-1], form="column"), "gram/definition-column/%s" % fld(cx), n >= 2)
+    add("gram.roundtrip", dict(n=3, r=2, cx=False, kind="trine", seed=0), "gram/rank-deficient-degenerate-spectrum/real")
+    add("gram.definition", dict(n=3, r=2, cx=False, kind="trine", seed=0), "gram/definition/real")
+
+    def partitions(n, maxpart=None):
+        maxpart = maxpart or n
+        if n == 0:
+            yield []
+            return
+        for k in range(min(n, maxpart), 0, -1):
+            for rest in partitions(n - k, k):
+                yield [k] + rest
+
+    for n in range(1, 6 if thorough else 5):
+        for cx in (False, True):
+            for part in partitions(n):
+                for kind in ("normal-multiplicities", "diagonalisable-multiplicities"):
+                    for form in ("list", "array"):
+                        pr = dict(n=n, cx=cx, kind=kind, mult=part, form=form, seed=seeds[-1])
+                        add("commutant.commutes", pr, "commutant/%s/%s" % (kind, fld(cx)), n >= 2)
+                        add("commutant.dimension", pr, "commutant/%s/%s" % (kind, fld(cx)), n >= 2)
+                if len(part) >= 1:
+                    pr = dict(n=n, cx=cx, kind="block-algebra", blocks=part, seed=seeds[-1])
+                    add("commutant.commutes", pr, "commutant/block-algebra/%s" % fld(cx), n >= 2)
+                    add("commutant.dimension", pr, "commutant/block-algebra/%s" % fld(cx), n >= 2)
+            for kind in ("jordan-block", "identity"):
+                pr = dict(n=n, cx=cx, kind=kind, form="array", seed=0)
+                add("commutant.commutes", pr, "commutant/%s" % kind, n >= 2)
+                add("commutant.dimension", pr, "commutant/%s" % kind, n >= 2)
+            for k in range(1, n + 1):
+                if n % k == 0:
+                    pr = dict(n=n, cx=cx, kind="algebra-tensor-identity", k=k, m=n // k, seed=seeds[-1])
+                    add("commutant.commutes", pr, "commutant/algebra-tensor-identity/%s" % fld(cx), n >= 2)
+                    add("commutant.dimension", pr, "commutant/algebra-tensor-identity/%s" % fld(cx), n >= 2)
+    for n in (6,):
+        for cx in (False, True):
+            for pr in (dict(n=6, cx=cx, kind="algebra-tensor-identity", k=2, m=3, seed=seeds[-1]), dict(n=6, cx=cx, kind="algebra-tensor-identity", k=3, m=2, seed=seeds[-1]), dict(n=6, cx=cx, kind="normal-multiplicities", mult=[3, 2, 1], form="array", seed=seeds[-1])):
+                add("commutant.commutes", pr, "commutant/%s/%s" % (pr["kind"], fld(cx)))
+                add("commutant.dimension", pr, "commutant/%s/%s" % (pr["kind"], fld(cx)))
+    add("commutant.commutes", dict(n=2, cx=False, kind="pauli-xz", seed=0), "commutant/pauli-xz")
+    add("commutant.dimension", dict(n=2, cx=False, kind="pauli-xz", seed=0), "commutant/pauli-xz")
+    for n in sizes:
+        for s in seeds + [seeds[-1] + 1, seeds[-1] + 2]:
+            for kind in ("doubly-stochastic-image", "reflexive-permuted", "random-pair", "reversed", "int-lists"):
+                pr = dict(n=n, kind=kind, cx=False, seed=s)
+                d = _majorizes_direction(pr)
+                if d:
+                    add("majorizes.%s" % d, pr, "majorizes/%s" % kind, n >= 2)
+            for m in (max(1, n - 2), n + 2):
+                pr = dict(n=n, m=m, kind="random-pair", cx=False, seed=s)
+                d = _majorizes_direction(pr)
+                if d:
+                    add("majorizes.%s" % d, pr, "majorizes/different-lengths", True)
+            for cx in (False, True):
+                pr = dict(n=n, kind="matrices", cx=cx, seed=s)
+                d = _majorizes_direction(pr)
+                if d:
+                    add("majorizes.%s" % d, pr, "majorizes/matrices/%s" % fld(cx), n >= 2)
+    for m in sizes:
+        for nc in sizes:
+            if thorough or (m <= 5 and nc <= 6):
+                for cx in (False, True):
+                    for s in seeds[-1:]:
+                        add("spark.bruteforce", dict(m=m, ncols=nc, kind="generic", cx=cx, seed=s), "spark/generic/%s" % fld(cx), m * nc > 1)
+                        add("spark.bruteforce", dict(m=m, ncols=nc, kind="zero-column", cx=cx, seed=s), "spark/zero-column/%s" % fld(cx), m * nc > 1)
+                        if nc >= 2:
+                            add("spark.bruteforce", dict(m=m, ncols=nc, kind="parallel-columns", cx=cx, seed=s), "spark/parallel-columns/%s" % fld(cx))
+                        for k in range(3, min(m + 1, nc) + 1):
+                            add("spark.bruteforce", dict(m=m, ncols=nc, kind="dependent-k", k=k, cx=cx, seed=s), "spark/dependent-k/%s" % fld(cx))
+        add("spark.bruteforce", dict(m=m, ncols=m + 1, kind="identity-plus-ones", cx=False, seed=0), "spark/identity-plus-ones")
+    for m in sizes:
+        for nc in sizes:
+            for cx in (False, True):
+                add("kp_norm.svd", dict(m=m, ncols=nc, cx=cx, ps=[1, 2, 3, "inf"], seed=seeds[-1]), "kp_norm/generic/%s" % fld(cx), m * nc > 1)
+                if min(m, nc) >= 2:
+                    add("kp_norm.svd", dict(m=m, ncols=nc, cx=cx, ps=[1, 2, 4], rankdef=True, seed=seeds[-1]), "kp_norm/rank-deficient/%s" % fld(cx))
+                add("trace_norm.svd", dict(m=m, ncols=nc, cx=cx, kind="generic", seed=seeds[-1]), "trace_norm/generic/%s" % fld(cx), m * nc > 1)
+        for cx in (False, True):
+            for kind in ("hermitian", "density", "difference-of-states"):
+                add("trace_norm.svd", dict(m=m, ncols=m, cx=cx, kind=kind, seed=seeds[-1]), "trace_norm/%s/%s" % (kind, fld(cx)), m > 1)
+    for kind in ("is_square/1d", "is_square/3d", "is_pseudo_unitary/negative-p", "is_pseudo_unitary/negative-q", "is_pseudo_hermitian/non-hermitian-signature", "is_pseudo_hermitian/singular-signature", "is_stochastic/bad-type", "is_nonnegative/bad-type", "is_totally_positive/empty", "spark/1d", "spark/list", "is_mutually_orthogonal/one-vector", "is_mutually_orthogonal/empty", "is_unextendible_product_basis/dims-mismatch", "is_unextendible_product_basis/non-product", "vectors_to_gram_matrix/different-lengths", "vectors_from_gram_matrix/non-square"):
+        add("errors.documented", dict(kind=kind), "errors/" + kind)
+    return out
